@@ -2,7 +2,9 @@ import Holpy.C18.ProofsRes
 import Holpy.C18.ProofsHyps
 import Holpy.C18.ProofsEq
 import Holpy.C18.ProofsSimp
+import Holpy.C18.ProofsSimpB
 import Holpy.C18.ProofsSimp2
+import Holpy.C18.ProofsCong
 namespace Holpy.C18
 open Tm
 
@@ -15,6 +17,7 @@ theorem evalRule_sound' (I : Interp) (hI : I.LeOrder) (r : Rule) (cl : List Tm) 
   case iteSimplify => exact iteSimplify_sound I _ _ h (by simp only [wellKinded] at hk ⊢; exact hk)
   case connectiveDef => exact connectiveDef_sound I _ _ h (by simp only [wellKinded] at hk ⊢; exact hk)
   case subproof => exact subproof_sound I _ _ _ h hp
+  case congRule => exact congRule_sound I _ _ _ h hk hp
   case notSimplify => exact notSimplify_sound I _ _ h (by simpa [wellKinded] using hk)
   case andSimplify => exact andSimplify_sound I _ _ h (by simpa [wellKinded] using hk)
   case orSimplify => exact orSimplify_sound I _ _ h (by simpa [wellKinded] using hk)
@@ -96,6 +99,7 @@ theorem evalRule_hyps' (r : Rule) (cl : List Tm) (sizes : List Nat) (ps : List S
   case contraction => exact contraction_hyps _ _ _ h
   case transRule => exact transRule_hyps _ _ _ h
   case subproof => exact subproof_hyps _ _ _ h
+  case congRule => exact congRule_hyps _ _ _ h
   all_goals (intro x hx; exfalso)
   case eqReflexive => simp [eqReflexive_hyps _ _ h] at hx
   case iteSimplify => simp [iteSimplify_hyps _ _ h] at hx
